@@ -111,7 +111,19 @@ func (s *c04State) newUTXO(owner int) *c04UTXO {
 		sc = append(sc, 0x00)
 		sc = append(sc, pushOf(data)...)
 		sc = append(sc, 0x68)
+		// optionally the enriched form: OP_RETURN followed by 0, 1, 2 or more raw bytes
+		switch c.Pick(3, 1, 1, 1, 1) {
+		case 1:
+			sc = append(sc, 0x6a)
+		case 2:
+			sc = append(sc, 0x6a, 0x00)
+		case 3:
+			sc = append(sc, 0x6a, 0x01, 0x42)
+		case 4:
+			sc = append(append(sc, 0x6a), pushOf(c.Bytes(1+c.Choose(12)))...)
+		}
 		u.script = sc
+		c.Count("probe.inscription_utxo", 1)
 	}
 	return u
 }
@@ -445,15 +457,29 @@ func (w *c04World) event(s *c04State, kind int) string {
 		var err error
 		c.Exec()
 		var pn string
+		direct := c.Bool(1, 3)
 		s.libCall("FillInput", func() {
 			pn = catch(func() {
+				if direct {
+					// the unlocker used directly (as the repository's examples do), then installed on the input
+					var us *bscript.Script
+					us, err = (&unlocker.Simple{PrivateKey: p.key}).UnlockingScript(context.Background(), tx, bt.UnlockerParams{InputIdx: uint32(i), SigHashFlags: sighash.Flag(flag)})
+					if err == nil {
+						err = tx.InsertInputUnlockingScript(uint32(i), us)
+					}
+					return
+				}
 				err = tx.FillInput(context.Background(), &unlocker.Simple{PrivateKey: p.key}, bt.UnlockerParams{InputIdx: uint32(i), SigHashFlags: sighash.Flag(flag)})
 			})
 		})
 		name := fmt.Sprintf("Sign(%d,%s)", i, flagName(flag))
+		if direct {
+			name = fmt.Sprintf("SignDirect(%d,%s)", i, flagName(flag))
+			c.Count("probe.direct_unlocker_signature", 1)
+		}
 		if flag == 0 {
 			flag = 0x41
-			name = fmt.Sprintf("Sign(%d,default)", i)
+			name = fmt.Sprintf("%s(%d,default)", map[bool]string{true: "SignDirect", false: "Sign"}[direct], i)
 			c.Count("probe.default_flag_signature", 1)
 		}
 		if pn != "" || err != nil {
@@ -751,6 +777,12 @@ func c04SignedProgram(c *kernel.RunCtx) *program {
 	pr.flags = parseFlags("UTXO_AFTER_GENESIS")
 	if flag&0x40 != 0 {
 		pr.flags = parseFlags("UTXO_AFTER_GENESIS,SIGHASH_FORKID")
+	}
+	// signature-policy flags that library-made (canonical, low-S, DER) signatures satisfy
+	for _, f := range []string{"LOW_S", "DERSIG", "STRICTENC", "NULLFAIL", "MINIMALDATA", "SIGPUSHONLY"} {
+		if c.Bool(1, 3) {
+			pr.flags |= parseFlags(f)
+		}
 	}
 	return pr
 }
